@@ -312,7 +312,7 @@ def plan(prop, tier):
     if prop == "C04":
         return harness_plan(prop, tier, [("rel", 8, 2500), ("asan", 8, 500)], [("rel", 12, 100000), ("asan", 16, 20000), ("clang-asan", 4, 5000)])
     if prop == "C05":
-        return harness_plan(prop, tier, [("rel", 10, 600), ("asan", 6, 150)], [("rel", 14, 700), ("asan", 14, 140)])
+        return harness_plan(prop, tier, [("rel", 10, 600), ("asan", 6, 150)], [("rel", 14, 1500), ("asan", 14, 300)])
     if prop == "C06":
         return harness_plan(prop, tier, [("rel", 10, 300), ("asan", 6, 60)], [("rel", 14, 15000), ("asan", 14, 3000)])
     if prop == "C07":
